@@ -99,11 +99,11 @@ static Fn make_fn(uint32_t& id_out) {
 enum K { NEW, TRY_NEW, TRY_NEW_DISCARD, MAYBE_NEW, TRY_NEW_POD, ID, BUMP, PEER, MAYBE_PEER, VIEW, TRY_VIEW, VIEW_OWNER, PAIR, TRY_PAIR,
          TAKE_STRS, SUM, FILL, CALL, CALL_TWICE, IGNORE, TRY_CALL, GREET, HOLD, CALL_HELD, UNHOLD, OPT_IN, DOPT_IN, OPT_U32, RES_UNIT, RES_POD,
          DESCRIBE, DESCRIBE_N, TRY_DESCRIBE, DESCRIBE_INTO, DESTROY, MOVE, THROW_SCOPE, SCOPE,
-         LIST_NEW, ITER_BEGIN, ITER_COPY, ITER_DROP, ITER_ADVANCE, ITER_RANGE, NKINDS };
+         LIST_NEW, ITER_BEGIN, ITER_COPY, ITER_DROP, ITER_ADVANCE, ITER_RANGE, HOLD_MUT, CALL_HELD_MUT, CALL_MUT, NKINDS };
 static const char* KNAME[] = {"new", "try_new", "try_new_discard", "maybe_new", "try_new_pod_err", "id", "bump", "peer", "maybe_peer", "view", "try_view", "view_owner", "pair", "try_pair",
                               "take_strs", "sum", "fill", "call", "call_twice", "ignore", "try_call", "greet", "hold", "call_held", "unhold", "opt_in", "dopt_in", "opt_u32", "res_unit", "res_pod",
                               "describe", "describe_n", "try_describe", "describe_into", "destroy", "move", "throw_scope", "scope",
-                              "list_new", "iter_begin", "iter_copy", "iter_drop", "iter_advance", "iter_range"};
+                              "list_new", "iter_begin", "iter_copy", "iter_drop", "iter_advance", "iter_range", "hold_mut", "call_held_mut", "call_mut"};
 struct Op { int k = 0; int h = 0, g = 0, d = 0; int n = 0; bool f = true; };
 struct Trace { uint64_t seed = 0, run = 0; std::string prop = "C03"; std::vector<Op> ops; };
 static const int NH = 6;
@@ -190,7 +190,7 @@ static Trace gen_trace(uint64_t seed, uint64_t run, const std::string& prop) {
         if (kinds[o.d] == 0) { if (o.k == VIEW) kinds[o.d] = 3; else if (o.k == TRY_VIEW) kinds[o.d] = o.f ? 3 : 2; else if (!o.f) kinds[o.d] = 2; }
         break;
       case 3: o.k = rng.pick<int>({TAKE_STRS, SUM, FILL}); o.n = rng.pick<int>({0, 0, 1, 3, 17}); break;
-      case 4: o.k = rng.pick<int>({CALL, CALL, CALL_TWICE, IGNORE, TRY_CALL, GREET, HOLD, CALL_HELD, UNHOLD}); o.n = rng.below(5);
+      case 4: o.k = rng.pick<int>({CALL, CALL, CALL_TWICE, IGNORE, TRY_CALL, GREET, HOLD, CALL_HELD, UNHOLD, HOLD_MUT, CALL_HELD_MUT, CALL_MUT}); o.n = rng.below(5);
         if (o.k == TRY_CALL && kinds[o.d] == 0 && !o.f) kinds[o.d] = 2;
         break;
       case 5: o.k = rng.pick<int>({OPT_IN, DOPT_IN, OPT_U32, RES_UNIT, RES_POD}); break;
@@ -224,6 +224,7 @@ struct H {
   uint32_t id = 0;
   int lender = -1;
   uint32_t held = 0;  // id of the token captured by the stored callback (0 = none)
+  bool held_is_mut = false;
 };
 
 struct Violation { std::string oracle, detail; int step = 0; };
@@ -407,11 +408,11 @@ struct Exec {
         for (int i = 0; i < o.n; i++) if (v[i] != x.id + i) fail("O5-value-integrity", "fill wrong");
         break;
       }
-      case CALL: case IGNORE: {
+      case CALL: case IGNORE: case CALL_MUT: {
         if (x.kind != 1) return false;
         uint32_t cid = 0; uint32_t got;
-        { Fn f = make_fn(cid); got = o.k == CALL ? x.tok->call(std::move(f)) : x.tok->ignore(std::move(f)); }
-        if (o.k == CALL && got != x.id + cid) fail("O5-value-integrity", "callback result wrong");
+        { Fn f = make_fn(cid); got = o.k == CALL ? x.tok->call(std::move(f)) : o.k == CALL_MUT ? x.tok->call_mut(std::move(f)) : x.tok->ignore(std::move(f)); }
+        if (o.k != IGNORE && got != x.id + cid) fail("O5-value-integrity", "callback result wrong");
         if (o.k == IGNORE) inc("fault_callback_never_called_fired");
         if (vb_ledger_is_live(cid)) fail("O3-leak", "callback capture still alive after the call returned");
         inc("callback_passed");
@@ -453,16 +454,18 @@ struct Exec {
         if (vb_ledger_is_live(cid)) fail("O3-leak", "callback capture still alive after greet returned");
         break;
       }
-      case HOLD: {
+      case HOLD: case HOLD_MUT: {
         if (x.kind != 1 || has_dependents(o.h)) return false;
         uint32_t cid = 0; uint32_t old = x.held;
-        { Fn f = make_fn(cid); x.tok->hold(std::move(f)); }
-        x.held = cid;
+        { Fn f = make_fn(cid); if (o.k == HOLD) x.tok->hold(std::move(f)); else x.tok->hold_mut(std::move(f)); }
+        x.held = cid; x.held_is_mut = o.k == HOLD_MUT;
+        if (!vb_ledger_is_live(cid)) fail("O2-premature-drop", "a callback Rust retains was released when the call that stored it returned");
         if (old && vb_ledger_is_live(old)) fail("O3-leak", "replaced stored callback was not released");
         inc("callback_stored");
         break;
       }
-      case CALL_HELD: { if (x.kind != 1) return false; uint32_t got = x.tok->call_held(40); if (got != (x.held ? 40 + x.held : 0)) fail("O5-value-integrity", "stored callback result wrong"); break; }
+      case CALL_HELD: { if (x.kind != 1) return false; uint32_t got = x.tok->call_held(40); if (got != (x.held && !x.held_is_mut ? 40 + x.held : 0)) fail("O5-value-integrity", "stored callback result wrong"); break; }
+      case CALL_HELD_MUT: { if (x.kind != 1 || has_dependents(o.h)) return false; uint32_t got = x.tok->call_held_mut(40); if (got != (x.held && x.held_is_mut ? 40 + x.held : 0)) fail("O5-value-integrity", "stored FnMut callback result wrong"); break; }
       case UNHOLD: { if (x.kind != 1 || has_dependents(o.h)) return false; uint32_t old = x.held; x.tok->unhold(); x.held = 0; if (old && vb_ledger_is_live(old)) fail("O3-leak", "dropped stored callback was not released"); break; }
       case OPT_IN: case DOPT_IN: {
         if (x.kind != 1) return false;
